@@ -34,7 +34,7 @@ Bind(r) ==
   /\ obs' = r
   \* not observable / not needed by the predicates
   /\ UNCHANGED <<registered, edge, batch, ret, cur, tokLeft, inHand, forced, turns, wakerPending, chanOpen,
-                 oldCounter, nfaults, ncmds, nerrs, nbare, served, dispatchLog, rrWindow, pauseEffective,
+                 oldCounter, nfaults, ncmds, nerrs, nbare, served, dispatchLog, lastD, rer, rrWindow, pauseEffective,
                  fatalSeen, act>>
 
 TInit == Init /\ pos = 0 /\ obs = [ev |-> "none"]
